@@ -18,7 +18,7 @@ from ..harness import Prop, Result
 SCHEMA_URIS = {3: "http://json-schema.org/draft-03/schema#", 4: "http://json-schema.org/draft-04/schema#",
                6: "http://json-schema.org/draft-06/schema#", 7: "http://json-schema.org/draft-07/schema#"}
 VALIDATOR_NAMES = {3: "Draft3Validator", 4: "Draft4Validator", 6: "Draft6Validator", 7: "Draft7Validator"}
-FORMATS = [None, "\x01{error.message}\x02", "\x01{error.validator}|{error.json_path}\x02\n",
+FORMATS = [None, "", "{error.message:.0}", "\x01{error.message}\x02", "\x01{error.validator}|{error.json_path}\x02\n",
            "\x01{error.instance}\x02", "\x01{error.schema_path}\x02"]
 
 
@@ -56,7 +56,8 @@ def cases(draw):
     base_uri = draw(st.integers(0, 4)) == 0
     return {"draft": d, "schema_state": sstate, "schema": schema, "validator": explicit, "instances": insts,
             "stdin": stdin, "output": output, "error_format": fmt, "base_uri": base_uri,
-            "subprocess": draw(st.integers(0, 39)) == 0, "local_ref": draw(st.integers(0, 3)) == 0}
+            "subprocess": draw(st.integers(0, 39)) == 0, "local_ref": draw(st.integers(0, 3)) == 0,
+            "id_redirect": draw(st.booleans())}
 
 
 NOT_JSON = '{"unterminated": [1, 2'
@@ -81,9 +82,22 @@ def materialise(case, tmp):
         schema = top
     if case["base_uri"] and case["schema_state"] == "valid" and isinstance(schema, dict):
         # move the real schema to a sibling file and refer to it relatively
-        with open(os.path.join(tmp, "other.json"), "w") as f:
-            json.dump({"definitions": {"x y": schema}}, f)
-        top = {"$ref": "other.json#/definitions/x%20y"}
+        used = case["validator"] or (case["draft"] if "$schema" in schema else 7)
+        if case.get("id_redirect"):
+            # the root schema declares an id of its own in ANOTHER directory: relative references follow the id, not
+            # the --base-uri (which only stands in for the retrieval URI); a decoy with the same name sits where the
+            # base URI points
+            os.makedirs(os.path.join(tmp, "real"), exist_ok=True)
+            with open(os.path.join(tmp, "real", "other.json"), "w") as f:
+                json.dump({"definitions": {"x y": schema}}, f)
+            with open(os.path.join(tmp, "other.json"), "w") as f:
+                json.dump({"definitions": {"x y": {"enum": ["only-the-decoy-accepts-this"]}}}, f)
+            top = {"id" if used <= 4 else "$id": "file://" + tmp + "/real/",
+                   "extends" if used == 3 else "allOf": [{"$ref": "other.json#/definitions/x%20y"}]}
+        else:
+            with open(os.path.join(tmp, "other.json"), "w") as f:
+                json.dump({"definitions": {"x y": schema}}, f)
+            top = {"$ref": "other.json#/definitions/x%20y"}
         if "$schema" in schema:
             top["$schema"] = schema["$schema"]
         schema = top
@@ -302,6 +316,8 @@ class C19(Prop):
             res.labels.append("pretty")
         if case["base_uri"] and case["schema_state"] == "valid":
             res.labels.append("base-uri")
+            if case.get("id_redirect"):
+                res.labels.append("base-uri+own-id")
         if case["validator"]:
             res.labels.append("explicit-validator")
         if case["stdin"] is not None:
